@@ -16,6 +16,19 @@ fn main() {
         "shard_count" => v::page_cache::shard_regions(n[0] as usize)[n[1] as usize].1 as u64,
         "shard_len" => v::page_cache::shard_regions(n[0] as usize).len() as u64,
         "full_entry" => v::bitbox::meta_map::full_entry(n[0]) as u64,
+        "grow" => {
+            // real allocator::grow on a scratch file (sparse): returns the new boundary, panics on overflow
+            let path = std::env::temp_dir().join(format!("verif-grow-{}", std::process::id()));
+            let f = std::fs::OpenOptions::new().create(true).read(true).write(true).open(&path).unwrap();
+            let r = v::beatree::allocator_grow(&f, n[0] as u32);
+            let len = f.metadata().map(|m| m.len()).unwrap_or(0);
+            let _ = std::fs::remove_file(&path);
+            match r {
+                // encode (boundary, file length in pages) in one number: boundary * 2^32 + len/4096
+                Ok(nb) => ((nb as u64) << 32) | (len / 4096),
+                Err(_) => u64::MAX,
+            }
+        }
         _ => panic!("unknown kernel"),
     });
     match r {
